@@ -162,6 +162,20 @@ fn main() {
                 }
             }
         }
+        "topo-det" => {
+            let max_obj: usize = arg(&args, "max-obj", 8);
+            let max_mor: usize = arg(&args, "max-mor", 14);
+            let nsplits: usize = arg(&args, "splits", 4);
+            for ep in ep_range {
+                let mut rng = Rng::new(seed.wrapping_mul(1_000_003).wrapping_add(ep));
+                let g = topo::random_graph(&mut rng, max_obj, max_mor, true);
+                stats.episodes += 1;
+                stats.kind("graph-repeat");
+                if let Err(e) = topo::check_repeat(&g, &mut rng, nsplits, &mut stats) {
+                    fail(&mode, seed, ep, &e, &[format!("{:?}", g)], "");
+                }
+            }
+        }
         "topo-exh" => {
             let max_obj: usize = arg(&args, "max-obj", 3);
             let max_mor: usize = arg(&args, "max-mor", 4);
